@@ -108,6 +108,15 @@ func (s *PassSpec) Facts(f *FuncInfo) *FlowResult {
 	defer func() { s.active[f] = false }()
 	entry := s.entryFacts(f)
 	r := f.CFG().MustFlow(entry, Transfer{
+		BlockEntry: func(b *cfg.Block, in FactSet) FactSet {
+			// the communication of a select clause takes effect when that clause is chosen
+			if b.Kind == cfg.KindSelectCaseBody {
+				if cc, ok := b.Stmt.(*ast.CommClause); ok && cc.Comm != nil {
+					return s.gens(f, cc.Comm, in)
+				}
+			}
+			return in
+		},
 		Node: func(ref NodeRef, in FactSet) FactSet { return s.node(f, ref, in) },
 		Edge: func(from *cfg.Block, k int, in FactSet) FactSet { return s.edge(f, from, k, in) },
 	})
@@ -347,6 +356,10 @@ func (s *PassSpec) node(f *FuncInfo, ref NodeRef, in FactSet) FactSet {
 			}
 		}
 	}
+	if f.CFG().selectComms()[n] {
+		// emitted by go/cfg ahead of the branch: only kills apply here (conservative), gens happen on clause entry
+		return s.kills(f, n, in)
+	}
 	// An expression node that is a condition is handled on edges; but calls inside it are scanned here.
 	isCondNode := false
 	if _, _, _, ok := CondEdges(ref.B); ok && ref.I == len(ref.B.Nodes)-1 {
@@ -388,6 +401,37 @@ func (s *PassSpec) node(f *FuncInfo, ref NodeRef, in FactSet) FactSet {
 			}
 		}
 	}
+	return s.kills(f, n, in)
+}
+
+// gens applies only the fact-establishing part of a statement (used for select clause communications).
+func (s *PassSpec) gens(f *FuncInfo, n ast.Node, in FactSet) FactSet {
+	InspectNoLits(n, func(m ast.Node) bool {
+		if _, ok := m.(*ast.FuncLit); ok {
+			return false
+		}
+		if call, ok := m.(*ast.CallExpr); ok {
+			for _, v := range s.Vias {
+				if v.Call != nil && v.Immediate {
+					if id, ok := v.Call(f, call); ok {
+						in["pass:"+id] = true
+					}
+				}
+			}
+		}
+		return true
+	})
+	for _, v := range s.Vias {
+		if v.Stmt != nil {
+			if id, ok := v.Stmt(f, n); ok {
+				in["pass:"+id] = true
+			}
+		}
+	}
+	return in
+}
+
+func (s *PassSpec) kills(f *FuncInfo, n ast.Node, in FactSet) FactSet {
 	if s.KillAll != nil && s.KillAll(f, n) {
 		for k := range in {
 			delete(in, k)
